@@ -8,12 +8,59 @@ HOOK_COMMITS = subprocess.run(
     capture_output=True, text=True).stdout.strip().splitlines()
 
 # id -> (technique, level text, level note, design ref)
+LOOP_NOTE = "Trusts the cfg(divan_verif) hook layer: the scripted timestamp counter only replaces the source of TSC readings, precision/overheads are supplied instead of measured, crate-private results are copied out unchanged. T > 1 runs use real threads with per-thread scripted clocks (per-thread logs are deterministic; cross-thread interleavings are C08's domain)."
+
 CHECKS = {
+    "C01": (
+        "property-based testing + small-scope enumeration: per-id life-cycle automaton over the event log of the real sample loop driven with instrumented values; generated panic points",
+        "The real Bencher entry points are driven with instrumented values (ids, destructors that log) and instrumented closures; a life-cycle automaton (generated -> counted once per counter -> passed to exactly one call -> output dropped once after the timed section and before its input -> input dropped once; same thread; _local on the caller) judges the complete event log. The 6 x 4 x 4 entry/shape matrix x {bench,test} x {T=1,3} is enumerated completely, everything else (sizes, counts, threads, tuned sizes, counters, panic at occurrence k of generator/counter/function/destructors) is random with shrinking. Exploration only.",
+        LOOP_NOTE + " Zero-sized shapes have no identity: multiplicities and order only. Panic plans only for T = 1 here.",
+        "DESIGN.md section 4, C01"),
+    "C02": (
+        "property-based testing: event-order check around logged timestamps + exact reference tally of in-window allocator operations (real allocations through the profiler, harness bypassed)",
+        "Generated allocation scripts (real std::alloc calls) run in the generator, counters, benchmarked function and both destructors; the log is cut at the scripted timestamp reads. (a) nothing but the sample's calls lies between a start and end reading; (b) each sample's recorded tally equals a reference tally of exactly the operations that thread performed between its two readings (including tuned runs, where discarded rounds must leave nothing behind). Exploration only.",
+        LOOP_NOTE + " Program order only: instruction reordering across the fences is invisible to any test.",
+        "DESIGN.md section 4, C02"),
+    "C03": (
+        "property-based testing: closed form s*T*ceil(n/T) vs per-thread call counts, recorded samples, Stats and printed cells",
+        "Generated (n, s, T, mode, entry, shape, max_time in {unset,0}) with n biased to {0,1,T-1,T,T+1,default}; the per-thread number of timed sections and calls, the recorded samples, Stats.sample_count/iter_count and the printed samples/iters cells must equal the closed form of the statement. Exploration only.",
+        LOOP_NOTE,
+        "DESIGN.md section 4, C03"),
+    "C04": (
+        "property-based testing: trace checker replaying the stopping rule over the logged clock readings of generated cost histories (ties on the budgets generated on purpose)",
+        "Generated option sets and cost scripts with budgets placed relative to the per-round cost; the checker recomputes elapsed time after every round from the logged readings exactly as the statement defines it (initial start .. latest end, or sum of slowest timed sections with the 1 ns floor) and requires the executed number of rounds to be the smallest one satisfying the rule, max_time having priority. Exploration only.",
+        LOOP_NOTE,
+        "DESIGN.md section 4, C04"),
+    "C05": (
+        "property-based testing: exact integer order-statistics reference over injected sample multisets and over samples derived from loop traces; painted-row scan",
+        "(a) arbitrary multisets (empty, singleton, ties, > 2^64 ps), sparse allocation tallies and counter values are injected into a real BenchContext and compute_stats / the row painter are judged by an independent reference in integer arithmetic that accepts every sample attaining a tied duration; (b) runs through the real loop, where the samples are re-derived from the trace so the sample -> index -> alloc/counter association is checked end to end. Found and fixed a division by zero / NaN with zero samples. Exploration only.",
+        LOOP_NOTE + " Float figures compared with relative tolerance 1e-12.",
+        "DESIGN.md section 4, C05"),
+    "C09": (
+        "property-based testing: scripted mock inner GlobalAlloc (call log = request log, returns identical), global-allocator watch for re-entry/allocation, fresh-thread and TLS-destructor contexts",
+        "Generated request sequences with valid layouts up to isize::MAX, arbitrary pointers and scripted returns incl. null are issued through AllocProfiler<Mock>; the mock's log must equal the request sequence, every return must be the scripted one, and no call may reach the process allocator from inside a wrapper call; also on a thread whose first action is the call and inside a thread-local destructor. Exploration only.",
+        "Trusts the mock (never touches memory). Thread tear-down on Linux ELF TLS only.",
+        "DESIGN.md section 4, C09"),
+    "C10": (
+        "property-based testing (model-based): i128 reference tally/peak model vs the thread-local tally after generated operation sequences on 1..8 threads",
+        "Generated operation sequences (sizes 0..2^40, shrink to 0, equal-size realloc, deallocating more than allocated since the clear, interleaved clears and check points, up to 3000 ops, up to 8 concurrent threads through one profiler) are compared after every check point with a reference model written from the statement; the caller's tally must be untouched by other threads. Exploration only.",
+        "Trusts the cfg(divan_verif) accessor (copies the thread-local tally). An equal-size realloc may count as grow or shrink.",
+        "DESIGN.md section 4, C10"),
     "C11": (
         "property-based testing (proptest): floor-division validity predicate in checked u128, metamorphic laws (monotone, additive within 1 ps, shift-invariant), exact Duration conversion, virtual-clock precision measurement",
         "Generated-input search over (a,b,f) in u64 x u64 x (u64\\{0}) with a boundary-heavy mixture, all Durations, and scripted uniform-step clocks; the oracle is a validity predicate q*f <= (b-a)*10^12 < (q+1)*f evaluated in checked 128-bit arithmetic, independent of the implementation's expression. Exploration, not proof: absence is not established, but every boundary class named in the property is generated thousands of times per run.",
         "Trusts the cfg(divan_verif) wrappers (they call the production functions unchanged) and the scripted TSC reader for the precision clause (precondition: a non-zero one-step difference is observable at least once per 50 reading pairs).",
         "DESIGN.md section 4, C11"),
+    "C18": (
+        "property-based testing: interval-membership oracle on the printed string in exact big-integer arithmetic (no floats, no division), canonical-form rules, boundary generators",
+        "Every printed string is parsed back; canonical-form rules (no exponent, no trailing zeros, max(0,4-d) decimals, integer digits in full) are checked and the exact input value must lie in the truncation interval the string claims, in the largest unit not exceeding it. Values are generated uniformly by bit length and densely (+-2000 ps / +-6 ulp) around every unit and digit boundary; float formatters get a relative 2^-50 allowance for the digits only. Exploration only.",
+        "Trusts the cfg(divan_verif) wrappers around the production Display impls. Only the default precision/width the table uses is judged for value; other widths/precisions for panics and padding.",
+        "DESIGN.md section 4, C18"),
+    "C19": (
+        "property-based testing: trace model of the doubling rule replayed over logged readings and observed round sizes; per-sample data of reported rounds compared with their own timed sections",
+        "Generated cost models (constant incl. 0 and the exact doubling boundaries, growing, noisy, zero-then-constant) relative to a supplied precision, T 1..3 with skew, max_time cutting tuning short, allocation scripts and per-input counters in discarded rounds; the checker replays size_1 = 1, double while floor(slowest/p) <= 100, freeze otherwise, stop rule as C04, and requires the reported size, samples, durations, allocation and counter data to be exactly those of the rounds from the freezing round on. Exploration only.",
+        LOOP_NOTE + " u32 overflow of the doubling is out of reach.",
+        "DESIGN.md section 4, C19"),
 }
 
 NOT_YET = {
